@@ -9,6 +9,7 @@ Wire form is vlib.content's (`vars`/`pars`/`derived`/`rxns`), with two optional 
 """
 from __future__ import annotations
 
+import copy
 import itertools
 import linecache
 import re
@@ -102,30 +103,98 @@ def compile_named(name: str, e, arity: int, bad=False):
     return fn
 
 
+def src_expr_x(e, argnames) -> str:
+    """source text of an expression of the wider fragment: + - * / % ** neg, constants, arguments and
+    ["k", NAME] = a module-level float constant of the function's module"""
+    tag = e[0]
+    if tag == "a":
+        return argnames[e[1]]
+    if tag == "k":
+        return e[1]
+    if tag == "c":
+        q = Fraction(e[1])
+        f = fexpr.to_float(q)
+        return repr(f) if f >= 0 else f"({f!r})"
+    if tag == "neg":
+        return f"(-{src_expr_x(e[1], argnames)})"
+    if tag in ("+", "-", "*", "/", "%", "**"):
+        return f"({src_expr_x(e[1], argnames)} {tag} {src_expr_x(e[2], argnames)})"
+    raise ValueError(e)
+
+
+def inline_consts(e, consts: dict):
+    """the same expression with module constants replaced by their values (what Lean / the spec see)"""
+    if e[0] == "k":
+        return ["c", str(consts[e[1]])]
+    if e[0] in ("a", "c"):
+        return e
+    return [e[0], *[inline_consts(x, consts) for x in e[1:]]]
+
+
+def compile_in_module(name: str, src_e, arity: int, floats):
+    """real Python function defined in its own (in-memory, registered) module that also has module-level
+    floats: some are read by the function, some merely share a name with one of its parameters"""
+    import sys
+    import types
+
+    argn = [f"a{i}" for i in range(arity)]
+    modname = f"mxlverif_cgmod_{next(_counter)}"
+    lines = [f"{k} = {fexpr.to_float(Fraction(v))!r}" for k, v in floats]
+    src = "\n".join(lines) + f"\n\n\ndef {name}({', '.join(argn)}):\n    return {src_expr_x(src_e, argn)}\n"
+    filename = f"<{modname}>"
+    linecache.cache[filename] = (len(src), None, src.splitlines(True), filename)
+    mod = types.ModuleType(modname)
+    mod.__file__ = filename
+    sys.modules[modname] = mod
+    exec(compile(src, filename, "exec"), mod.__dict__)  # noqa: S102
+    return mod.__dict__[name], mod
+
+
 class FnPool:
-    """one function object per (name, expression, arity, bad): sharing in the wire form is sharing here"""
+    """one function object per (name, body, arity, bad): sharing in the wire form is sharing here"""
 
     def __init__(self):
         self.by = {}
+        self.mods = []      # (module, floats2) of functions living in their own module
         self.auto = itertools.count()
 
     def get(self, d):
         arity = len(d["args"])
         name = d.get("name") or f"fn{next(self.auto)}"
-        key = (name, repr(d["e"]), arity, d.get("bad") or False)
+        body = d.get("src") or d["e"]
+        key = (name, repr(body), arity, d.get("bad") or False)
         if key not in self.by:
-            self.by[key] = compile_named(name, d["e"], arity, d.get("bad") or False)
+            if d.get("src"):
+                fn, mod = compile_in_module(name, d["src"]["e"], arity, d["src"]["floats"])
+                self.mods.append((mod, d["src"].get("floats2") or []))
+                self.by[key] = fn
+            else:
+                self.by[key] = compile_named(name, d["e"], arity, d.get("bad") or False)
         return self.by[key]
 
+    def mutate(self):
+        """session step: the module-level constants take their second values"""
+        for mod, floats2 in self.mods:
+            for k, v in floats2:
+                setattr(mod, k, fexpr.to_float(Fraction(v)))
 
-def build_model(content, rng=None):
+    def cleanup(self):
+        import sys
+
+        for mod, _ in self.mods:
+            sys.modules.pop(mod.__name__, None)
+            linecache.cache.pop(mod.__file__, None)
+        self.mods = []
+
+
+def build_model(content, rng=None, pool=None):
     """real `Model` from the wire form; kinds interleaved at random when rng is given"""
     from mxlpy import Model
     from mxlpy.types import Derived, InitialAssignment
 
     from vlib import content as C
 
-    pool = FnPool()
+    pool = pool if pool is not None else FnPool()
     m = Model()
     for kind, name, p in C.decl_sequence(content, rng):
         if kind in ("var", "par"):
@@ -153,9 +222,263 @@ def build_model(content, rng=None):
 # --------------------------------------------------------------------------- generator
 
 
+def all_fns(content):
+    for _, v in content["vars"] + content["pars"]:
+        if "ia" in v:
+            yield v["ia"]
+    for _, f in content["derived"]:
+        yield f
+    for _, r in content["rxns"]:
+        yield r
+        for _, cj in r["st"]:
+            if "c" not in cj:
+                yield cj
+
+
+def attach_module_consts(rng, d):
+    """put the function into a module of its own with module-level floats: one or two that the body reads
+    (with a second value for a later session step) and some that only share a name with a parameter"""
+    consts, consts2, src_e = {}, {}, copy.deepcopy(d["e"])
+    for i in range(rng.randint(1, 2)):
+        k = rng.choice(["KM", "VMAX", "SCALE", "OFFSET"]) + str(i)
+        consts[k] = rng.choice(["2", "3", "1/2", "-1"])
+        consts2[k] = rng.choice([v for v in ["2", "3", "1/2", "-1", "4"] if v != consts[k]])
+        src_e = [rng.choice(["*", "+", "-"]), src_e, ["k", k]] if rng.random() < 0.7 else ["*", ["k", k], src_e]
+    shadows = [[f"a{i}", rng.choice(["5", "7", "1/4", "-3"])] for i in range(len(d["args"])) if rng.random() < 0.6]
+    src = {"e": src_e, "floats": [[k, v] for k, v in consts.items()] + shadows,
+           "floats2": [[k, v] for k, v in consts2.items()]}
+    e1, e2 = inline_consts(src_e, consts), inline_consts(src_e, consts2)
+    if not (depends_on_all_names(e1, d["args"]) and depends_on_all_names(e2, d["args"])):
+        return d        # a constant would cancel an argument: leave the function as it is
+    d["src"] = src
+    d["e"], d["e2"] = e1, e2
+    return d
+
+
+def eval_rich(e, xs, guard=True):
+    """exact value of an expression of the wider fragment (Python semantics of % on rationals); with `guard`
+    every intermediate value must be a small dyadic, i.e. double arithmetic is exact at this point"""
+    import math
+
+    tag = e[0]
+    if tag == "a":
+        v = Fraction(xs[e[1]])
+    elif tag == "c":
+        v = Fraction(e[1])
+    elif tag == "neg":
+        v = -eval_rich(e[1], xs, guard)
+    else:
+        a, b = eval_rich(e[1], xs, guard), eval_rich(e[2], xs, guard)
+        if tag == "+":
+            v = a + b
+        elif tag == "-":
+            v = a - b
+        elif tag == "*":
+            v = a * b
+        elif tag == "/":
+            v = a / b
+        elif tag == "%":
+            v = a - b * math.floor(a / b)
+        elif tag == "**":
+            v = a ** int(b)
+        else:
+            raise ValueError(e)
+    if guard and not is_dyadic_small(v, 40):
+        raise Inexact(str(v))
+    return v
+
+
+def _rich_names(e, argnames, out):
+    if e[0] == "a":
+        out.add(argnames[e[1]])
+    elif e[0] not in ("c", "k"):
+        for x in e[1:]:
+            _rich_names(x, argnames, out)
+    return out
+
+
+def rich_classes(content) -> set:
+    """input-level classes of the wider fragment that hit known third-party defects:
+    "recip-modulus": some remainder's divisor is, in sympy's normal form, a bare reciprocal (printed `x % 1/p`);
+    "shared-modulus": the two operands of some remainder mention a common model name (sympy's automatic
+    simplification of Mod with a common symbolic factor)"""
+    import sympy
+
+    out = set()
+
+    def sym(e, names):
+        tag = e[0]
+        if tag == "a":
+            return sympy.Symbol(names[e[1]])
+        if tag == "c":
+            return sympy.Float(float(Fraction(e[1])))
+        if tag == "neg":
+            return -sym(e[1], names)
+        a, b = sym(e[1], names), sym(e[2], names)
+        return {"+": lambda: a + b, "-": lambda: a - b, "*": lambda: a * b, "/": lambda: a / b,
+                "%": lambda: a % b, "**": lambda: a ** b}[tag]()
+
+    def walk(e, names):
+        if e[0] in ("a", "c", "k"):
+            return
+        if e[0] == "%":
+            if _rich_names(e[1], names, set()) & _rich_names(e[2], names, set()):
+                out.add("shared-modulus")
+            try:
+                d = sym(e[2], names)
+                if isinstance(d, sympy.Pow) and d.exp == -1:
+                    out.add("recip-modulus")
+            except Exception:  # noqa: BLE001  zero division while normalising: the model raises as well
+                pass
+        for x in e[1:]:
+            walk(x, names)
+
+    for f in all_fns(content):
+        if f.get("rich"):
+            walk(f["src"]["e"], list(f["args"]))
+    return out
+
+
+RICH_VALUES = (1, 2, 4, 8, Fraction(1, 2))     # every variable / parameter value of the wider-fragment strata
+
+
+def gen_rich_expr(rng, arity, depth=3, share_mod=False):
+    """like `_gen_rich_expr`, but no divisor / modulus vanishes at sampled power-of-two arguments"""
+    for _ in range(60):
+        e = _gen_rich_expr(rng, arity, depth, share_mod)
+        try:    # at EVERY argument tuple the strata can produce: no zero divisor, and double arithmetic is exact
+            for xs in itertools.product(RICH_VALUES, repeat=arity):
+                eval_rich(e, xs)
+        except (ZeroDivisionError, Inexact):
+            continue
+        return e
+    e = ["a", 0]
+    for i in range(1, arity):
+        e = ["%", ["*", e, ["c", "3"]], ["*", ["a", i], ["c", "2"]]]
+    return e
+
+
+def _gen_rich_expr(rng, arity, depth=3, share_mod=False):
+    """expressions beyond + - *: / % ** and unary minus, nested, with products / sums / quotients as operands.
+    Unless `share_mod`, the two operands of a remainder mention disjoint arguments (sympy's automatic
+    simplification of Mod with a common symbolic factor is unsound, see finding F-C07-10 / F-C11-4)."""
+    def leaf(allowed):
+        if allowed and rng.random() < 0.75:
+            return ["a", rng.choice(allowed)]
+        return ["c", str(rng.choice([2, 3, 4, "1/2", "3/2", 5]))]
+
+    def mult(d, allowed):     # a product / quotient / power of arguments and powers of two
+        if d == 0 or rng.random() < 0.3:
+            if allowed and rng.random() < 0.8:
+                return ["a", rng.choice(allowed)]
+            return ["c", str(rng.choice([2, 4, "1/2"]))]
+        op = rng.choice(["*", "*", "/", "**"])
+        if op == "**":
+            return ["**", mult(d - 1, allowed), ["c", "2"]]
+        return [op, mult(d - 1, allowed), mult(d - 1, allowed)]
+
+    def go(d, allowed):
+        if d == 0 or rng.random() < 0.15:
+            return leaf(allowed)
+        op = rng.choice(["+", "-", "*", "*", "/", "/", "%", "%", "**", "neg"])
+        if op == "neg":
+            return ["neg", go(d - 1, allowed)]
+        if op == "**":
+            return ["**", go(d - 1, allowed), ["c", str(rng.choice([2, 3]))]]
+        if op == "/":
+            return ["/", go(d - 1, allowed), mult(d - 1, allowed)]
+        if op == "%" and not share_mod:
+            sh = list(allowed)
+            rng.shuffle(sh)
+            cut = rng.randint(1, len(sh) - 1) if len(sh) >= 2 else len(sh)
+            left, right = sh[:cut], sh[cut:]
+            if rng.random() < 0.5:
+                left, right = right, left
+            return ["%", go(d - 1, left), go(d - 1, right)]
+        return [op, go(d - 1, allowed), go(d - 1, allowed)]
+
+    e = go(depth, list(range(arity)))
+    used = set()
+
+    def collect(x):
+        if x[0] == "a":
+            used.add(x[1])
+        elif x[0] not in ("c", "k"):
+            for y in x[1:]:
+                collect(y)
+
+    collect(e)
+    for i in range(arity):
+        if i not in used:
+            e = [rng.choice(["+", "*", "%", "/"] if share_mod else ["+", "*", "/"]), e, ["a", i]]
+    return e
+
+
+class Namer:
+    """chooses `__name__`s: fresh, shared (the same function object reused with other arguments), colliding
+    (another function, same name) or meeting the generator's derived keys"""
+
+    def __init__(self, rng, p_share, p_collide=0.0, p_cross=0.0):
+        self.rng, self.p_share, self.p_collide, self.p_cross = rng, p_share, p_collide, p_cross
+        self.reg = []  # (name, body dict, arity)
+        self.n = 0
+
+    @staticmethod
+    def _body(d):
+        return {k: copy.deepcopy(d[k]) for k in ("e", "src", "e2", "rich") if k in d}
+
+    def __call__(self, rng, role, d):
+        arity = len(d["args"])
+        same = [r for r in self.reg if r[2] == arity]
+        x = rng.random()
+        if same and x < self.p_share:
+            name, body, _ = rng.choice(same)
+            # share only if every model name passed still matters (f(x, p, x) may cancel x)
+            if body.get("rich") or (depends_on_all_names(body["e"], d["args"])
+                                    and ("e2" not in body or depends_on_all_names(body["e2"], d["args"]))):
+                for k in ("e", "src", "e2", "rich"):
+                    d.pop(k, None)
+                d.update(copy.deepcopy(body))
+                return name
+        if same and x < self.p_share + self.p_collide:
+            name = rng.choice(same)[0]          # another function, same __name__, same arity
+            self.reg.append((name, self._body(d), arity))
+            return name
+        if same and x < self.p_share + self.p_collide + self.p_cross:
+            base = rng.choice(same)[0]          # names that meet the generator's derived keys (same arity)
+            name = rng.choice([f"init_{base}", f"r0_stoich_{base}", f"r1_stoich_{base}"])
+            while any(r[0] == name and r[2] == arity for r in self.reg) and rng.random() < 0.7:
+                name += "_"                     # ... and the names the generator would move on to
+            if any(r[0] == name and r[2] != arity for r in self.reg) or len(name) > 40:
+                name = f"f{self.n}"
+                self.n += 1
+        else:
+            name = f"f{self.n}"
+            self.n += 1
+        self.reg.append((name, self._body(d), arity))
+        return name
+
+
+def content_phase2(content):
+    """the content after the session step: module constants have their second values"""
+    c = copy.deepcopy(content)
+    for f in all_fns(c):
+        if "e2" in f:
+            f["e"] = f.pop("e2")
+            merged = dict(map(tuple, f["src"]["floats"]))
+            merged.update(dict(map(tuple, f["src"].get("floats2") or [])))
+            f["src"]["floats"] = [[k, v] for k, v in merged.items()]
+            f["src"]["floats2"] = []
+    return c
+
+
+def has_session(content) -> bool:
+    return any("e2" in f for f in all_fns(content))
+
+
 def gen_content(rng, *, n_vars=(1, 4), n_pars=(0, 3), n_comps=(1, 7), p_ia_par=0.0, p_ia_var=0.0, p_time=0.15,
                 all_vars_have_eq=True, p_dyn_coef=0.3, shuffle=True, name_fn=None, p_dup_arg=0.0,
-                small=(1, 2, 3)):
+                small=(1, 2, 3), p_modconst=0.0, rich=False):
     """Random well-formed surrogate-free content (complete and acyclic by construction).
     `name_fn(rng, role) -> str | None` chooses function names (None = fresh unique name)."""
     nv = rng.randint(*n_vars)
@@ -187,9 +510,18 @@ def gen_content(rng, *, n_vars=(1, 4), n_pars=(0, 3), n_comps=(1, 7), p_ia_par=0
             return rng.sample(pool, n)
         return [rng.choice(pool) for _ in range(n)]
 
+    base_pool = list(pool)
+
     def mkfn(role, depth=2, lo=1, hi=3):
         args = pick_args(lo, hi)
+        if rich:   # wider fragment: arguments are variables / parameters only (see gen_rich_expr)
+            args = [rng.choice(base_pool) for _ in args]
         d = {"args": args, "e": gen_fn_expr(rng, args, depth)}
+        if rich:
+            d["rich"] = True
+            d["src"] = {"e": gen_rich_expr(rng, len(args), depth + 1), "floats": []}
+        elif rng.random() < p_modconst:
+            attach_module_consts(rng, d)
         if name_fn is not None:
             nm = name_fn(rng, role, d)
             if nm:
@@ -568,6 +900,33 @@ def shrink(case, still_fails, budget: int = 60):
             except Exception:  # noqa: BLE001  a candidate the harness cannot build is just not a witness
                 continue
     return cur, spent
+
+
+def close(a, b, rel: float = 1e-9) -> bool:
+    """canonical answers equal up to a relative tolerance on every number (oracle-only strata)"""
+    if isinstance(a, str) and isinstance(b, str):
+        if a == b:
+            return True
+        try:
+            x, y = float(Fraction(a)), float(Fraction(b))
+        except (ValueError, ZeroDivisionError):
+            return False
+        return abs(x - y) <= rel * max(1.0, abs(x), abs(y))
+    if isinstance(a, dict) and isinstance(b, dict):
+        return a.keys() == b.keys() and all(close(a[k], b[k], rel) for k in a)
+    if isinstance(a, (list, tuple)) and isinstance(b, (list, tuple)):
+        return len(a) == len(b) and all(close(x, y, rel) for x, y in zip(a, b))
+    return a == b
+
+
+def finite_answer(ans) -> bool:
+    if isinstance(ans, str):
+        return ans not in ("nan", "inf", "-inf")
+    if isinstance(ans, dict):
+        return "err" not in ans and all(finite_answer(v) for v in ans.values())
+    if isinstance(ans, (list, tuple)):
+        return all(finite_answer(v) for v in ans)
+    return True
 
 
 def answer_exact(ans, bits: int = 48) -> bool:
